@@ -199,6 +199,11 @@ KINDS = {
     # labels nested in the first (optional) argument of the numbered object itself
     'thmopt': '\\begin{zzthm}[T{L}]t{I}\\end{zzthm}',
     'itemopt': '\\begin{enumerate}\\item x\\item[u{L}] y{I}\\end{enumerate}',
+    # a unit below the numbering depth: it still is the object its label names (no number to print)
+    'ssub': '\\subsubsection{T}{L}{I}',
+    'para': '\\paragraph{T}{L} z',
+    # a starred eqnarray processed before the first numbered one (class-level caches must not carry over)
+    'starrow2': '\\begin{eqnarray*}p&=&q\\\\ r&=&s\\end{eqnarray*}\\begin{eqnarray}a&=&b\\\\ c&=&d{L}\\end{eqnarray}',
 }
 HAS_INSIDE = {k for k, v in KINDS.items() if '{I}' in v}
 
@@ -221,9 +226,11 @@ def numbers(objs):
         elif k == 'row1':
             c['equation'] += 2
             out.append(str(c['equation'] - 1))
-        elif k == 'row2':
+        elif k in ('row2', 'starrow2'):
             c['equation'] += 2
             out.append(str(c['equation']))
+        elif k in ('ssub', 'para'):
+            out.append(None)
         elif k in ('item', 'itemopt'):
             out.append('2')
         elif k == 'fig':
@@ -284,7 +291,11 @@ def locate(doc, objs):
             out.append([take('subsection')])
         elif kind == 'eq':
             out.append([take('equation')])
-        elif kind in ('row1', 'row2'):
+        elif kind == 'ssub':
+            out.append([take('subsubsection')])
+        elif kind == 'para':
+            out.append([take('paragraph')])
+        elif kind in ('row1', 'row2', 'starrow2'):
             env = take('eqnarray')
             rows = [c for c in env.childNodes if c.nodeName == 'ArrayRow'] if env is not None else []
             if kind == 'row1':
@@ -329,6 +340,9 @@ def judge_doc(objs, refs):
         if not hit:
             problems.append('label %s is not the identifier of object %d (%s): ids %s' % (
                 lab, i, objs[i], [getattr(c, 'id', None) for c in cand]))
+        elif nums[i] is None:
+            if hit[0].ref is not None and hit[0].ref.textContent:
+                problems.append('object %d (%s) below the numbering depth is numbered %r' % (i, objs[i], hit[0].ref.textContent))
         else:
             r = hit[0].ref
             if r is None or r.textContent != nums[i]:
@@ -367,6 +381,8 @@ def judge_doc(objs, refs):
         if t is None or not any(t is c for c in cand):
             problems.append('\\%s{%s} resolves to %s (id %s), expected object %d (%s)' % (
                 rn.nodeName, lab, getattr(t, 'nodeName', None), getattr(t, 'id', None), i, objs[i]))
+        elif nums[i] is None:
+            pass
         elif t.ref is None or t.ref.textContent != nums[i]:
             problems.append('\\ref{%s} would print %r, expected %r' % (lab, t.ref.textContent if t.ref is not None else None, nums[i]))
     if seen != want:
@@ -395,7 +411,10 @@ def run_block_doc(block):
     targets = list(range(k)) + [-1]
     one = [(cmd, t, s) for t in targets for s in slots for cmd in (('ref', 'pageref') if t == 0 else ('ref',))]
     for r in range(1, maxrefs + 1):
-        for refs in itertools.combinations_with_replacement(one, r) if r > 1 else [(x,) for x in one]:
+        combos = [(x,) for x in one] if r == 1 else \
+            [c for pair in itertools.combinations_with_replacement(one, r)
+             for c in ([pair, pair[::-1]] if pair[0] != pair[1] and pair[0][2] == pair[1][2] else [pair])]
+        for refs in combos:
             v, info, src = judge_doc(objs, refs)
             forward = any((t >= 0 and (s if isinstance(s, int) else s[1]) <= t) or t < 0 for c, t, s in refs)
             rep.case(key=(objs, refs), nontrivial=forward, outcome=info or 'ok')
